@@ -476,6 +476,10 @@ where
     install_panic_hook();
     let rt = tokio::runtime::Builder::new_current_thread().enable_time().start_paused(true).build().unwrap();
     let w = World::new();
+    // half of all simulated executions use clients with "habits" (see World::habits)
+    if seed % 2 == 0 {
+        w.habits.store(crate::prng::mix(seed, 0x4841_4249) | 1, Ordering::Relaxed);
+    }
     let w2 = w.clone();
     let (stats, r) = rt.block_on(async move {
         w2.start_clock();
